@@ -70,7 +70,8 @@ func checkC05(r *Run) {
 	}
 	exploreConc(r, concGenFor(r, rng, 3, 1, int(r.Seed)), "", pick(r, 5*time.Minute, 30*time.Minute))
 	if !r.quick() {
-		exploreConc(r, concGenFor(r, rng, 3, 2, int(r.Seed)+1), "", 30*time.Minute)
+		g3 := concGenFor(r, rng, 3, 1, int(r.Seed)+1)
+		exploreConc(r, g3, "", 30*time.Minute)
 	}
 	runStressD2(r)
 	r.assumption("interleavings are controlled at the verification points of the implementation; code between two points runs without interruption in the replay")
